@@ -35,6 +35,22 @@ def parse_log(text):
             for kv in line.split()[2:]:
                 obs["consultations"] += int(kv.split("=")[1])
     obs["unstable_unconsulted"] -= len(consulted)
+    # hook K5: which unstable nodes are opaque records / opaque typedefs (their rule reads what nobody traces: the recorded finding) and which are
+    # ordinary nodes that were simply not re-queued
+    unst, kinds = {}, {}
+    for line in text.splitlines():
+        m = AN.match(line)
+        if m and m.group(7):
+            unst.setdefault(m.group(1), set()).update(int(x) for x in m.group(7).split(","))
+        m = re.match(r"UNSTABLE-ITEM item=(\d+) kind=(\w+) opaque=(\w+)", line)
+        if m:
+            kinds[int(m.group(1))] = (m.group(2), m.group(3) == "true")
+    ann = []
+    for line in consulted:
+        m = re.search(r"analysis=(\S+) item=(\d+)", line)
+        root = any(kinds.get(i) in (("comp", True), ("alias", True)) for i in unst.get(m.group(1), ())) if m else False
+        ann.append("%s kind=%s opaque_record_unstable=%s" % (line, "/".join(map(str, kinds.get(int(m.group(2)), ("?", "?")))) if m else "?", "yes" if root else "no"))
+    consulted = ann
     return obs, consulted, capped
 
 
@@ -58,7 +74,10 @@ def unstable_signature(consulted, flags, text):
     """has_float looks through opaque types whose members are not traced (recorded finding)."""
     analyses = set(re.findall(r"analysis=(\S+)", "\n".join(consulted)))
     uses_opaque = "--opaque-type" in flags or "rustbindgen opaque" in (text or "") or "--allowlist" in " ".join(flags) and False
-    if analyses and analyses <= {"has_float", "has_vtable", "has_destructor", "has_type_param_in_array"} and uses_opaque:
+    # ... and only when an opaque RECORD is among the unstable nodes of each of those analyses: unstable type references / containers
+    # next to a stable opaque record are a different defect (a node that was not re-queued)
+    if analyses and analyses <= {"has_float", "has_vtable", "has_destructor", "has_type_param_in_array"} and uses_opaque and all(
+            "opaque_record_unstable=yes" in c_ for c_ in consulted):
         return "c07.has_float-through-opaque"
     return None
 
